@@ -31,8 +31,8 @@ theorem no_add_lost_aux {cfg : Config} {s : State} (hi : Inv cfg s)
     · refine ⟨[.top, .advance (max s.now d), .expire],
         handleTimer cfg { s with loop := .sel, now := max s.now d }, ?_, ?_, ?_, ?_⟩
       · simp [exec, step, hl, htm, h1, h2]
-      · simp [handleTimer, fire, hp]
-      · simp [handleTimer]
+      · simp [handleTimer_def, fire_def, hp]
+      · simp [handleTimer_def]
       · intro l hl'; simp at hl'
         rcases hl' with rfl | rfl | rfl
         · left; rfl
@@ -41,8 +41,8 @@ theorem no_add_lost_aux {cfg : Config} {s : State} (hi : Inv cfg s)
     · refine ⟨[.advance (max s.now d), .expire],
         handleTimer cfg { s with now := max s.now d }, ?_, ?_, ?_, ?_⟩
       · simp [exec, step, hl, htm, h1, h2]
-      · simp [handleTimer, fire, hp]
-      · simp [handleTimer]
+      · simp [handleTimer_def, fire_def, hp]
+      · simp [handleTimer_def]
       · intro l hl'; simp at hl'
         rcases hl' with rfl | rfl
         · right; exact ⟨d, rfl, rfl⟩
@@ -56,14 +56,14 @@ theorem no_add_lost_aux {cfg : Config} {s : State} (hi : Inv cfg s)
     rcases running_cases hrun with hl | hl
     · refine ⟨[.top, .deliver], handleInput cfg { s with loop := .sel }, ?_, ?_, ?_, ?_⟩
       · simp [exec, step, hl, htok]
-      · rw [handleInput_none (by simpa using htm)]; simp [fire, hp]
-      · rw [handleInput_none (by simpa using htm)]; simp [fire, hp]
+      · rw [handleInput_none (by simpa using htm)]; simp [fire_def, hp]
+      · rw [handleInput_none (by simpa using htm)]; simp [fire_def, hp]
       · intro l hl'; simp at hl'
         rcases hl' with rfl | rfl <;> (left; rfl)
     · refine ⟨[.deliver], handleInput cfg s, ?_, ?_, ?_, ?_⟩
       · simp [exec, step, hl, htok]
-      · rw [handleInput_none htm]; simp [fire, hp]
-      · rw [handleInput_none htm]; simp [fire, hp]
+      · rw [handleInput_none htm]; simp [fire_def, hp]
+      · rw [handleInput_none htm]; simp [fire_def, hp]
       · intro l hl'; simp at hl'; subst hl'; left; rfl
 
 /-! ### first Add after idle -/
@@ -75,16 +75,16 @@ theorem first_after_idle_aux {cfg : Config} {s : State} (htm : s.timer = none) (
       s2.fires = s.fires + 1 ∧ s2.senders = s.senders + 1 ∧ s2.now = s.now ∧ s2.pending = 0 ∧
       s2.timer = some (s.now + cfg.initial) := by
   refine ⟨{ s with pending := s.pending + 1, tokens := s.tokens + 1, adds := s.adds + 1 }, ?_, ?_⟩
-  · simp [step, hcl]
+  · simp [step_add_def, hcl]
   rcases running_cases hrun with hl | hl
   · refine ⟨[.top, .deliver], handleInput cfg { s with pending := s.pending + 1, tokens := s.tokens + 1, adds := s.adds + 1, loop := .sel }, ?_, ?_, ?_⟩
     · intro l hl'; simp at hl'; rcases hl' with rfl | rfl <;> rfl
     · simp [exec, step, hl]
-    · rw [handleInput_none (by simpa using htm)]; simp [fire, hpe]
+    · rw [handleInput_none (by simpa using htm)]; simp [fire_def, hpe]
   · refine ⟨[.deliver], handleInput cfg { s with pending := s.pending + 1, tokens := s.tokens + 1, adds := s.adds + 1 }, ?_, ?_, ?_⟩
     · intro l hl'; simp at hl'; subst hl'; rfl
     · simp [exec, step, hl]
-    · rw [handleInput_none (by simpa using htm)]; simp [fire, hpe]
+    · rw [handleInput_none (by simpa using htm)]; simp [fire_def, hpe]
 
 theorem first_after_idle_forced_aux {cfg : Config} {s s1 : State} (htm : s.timer = none)
     (htok : s.tokens = 0) (hpe : s.pending = 0) (hrun : s.running = true) (hcl : s.closed = false)
@@ -92,7 +92,7 @@ theorem first_after_idle_forced_aux {cfg : Config} {s s1 : State} (htm : s.timer
     ∀ l s2, l.internal = true → step cfg s1 l = some s2 →
       (l = .top ∧ s2.fires = s.fires ∧ s2.tokens = 1 ∧ s2.loop = .sel) ∨
       (l = .deliver ∧ s2.fires = s.fires + 1 ∧ s2.now = s.now) := by
-  simp [step, hcl] at hadd
+  simp [step_add_def, hcl] at hadd
   subst hadd
   intro l s2 hint hst
   rcases running_cases hrun with hl | hl
@@ -101,7 +101,7 @@ theorem first_after_idle_forced_aux {cfg : Config} {s s1 : State} (htm : s.timer
   · cases l <;> simp [Label.internal] at hint <;> simp [step, hl, hcl, hnc, htm, State.ctxDone] at hst
     · right; subst hst
       refine ⟨rfl, ?_, ?_⟩
-      · rw [handleInput_none (by simpa using htm)]; simp [fire, hpe]
+      · rw [handleInput_none (by simpa using htm)]; simp [fire_def, hpe]
       · rw [handleInput_none (by simpa using htm)]; simp
 
 /-! ### inside one window -/
@@ -111,7 +111,7 @@ theorem expire_effect {cfg : Config} {s s' : State} (hst : step cfg s .expire = 
   simp only [step] at hst
   split at hst
   · split at hst
-    · cases hst; simp [handleTimer, fire_fires]
+    · cases hst; simp [handleTimer_def, fire_fires]
     · cases hst
   · cases hst
 
@@ -126,11 +126,11 @@ theorem inwindow_step {cfg : Config} (hcap : cfg.cap = none) {s s' : State} {l :
     split at hst
     · cases hst
       obtain ⟨d0, hd0⟩ := Option.isSome_iff_exists.1 hopen
-      have hc : capReached cfg s = false := by simp [capReached, hcap]
+      have hc : capReached cfg s = false := by simp [capReached_def, hcap]
       rw [handleInput_ext hd0 hc]; simp
     · cases hst
   | add =>
-    simp only [step] at hst
+    rw [step_add_def] at hst
     split at hst <;> cases hst
     · exact ⟨rfl, hopen, rfl, Nat.le_refl _⟩
     · refine ⟨rfl, hopen, ?_, ?_⟩ <;> simp <;> omega
@@ -192,10 +192,10 @@ theorem cap_fires_aux {cfg : Config} (hv : cfg.valid) {s : State} (hi : Inv cfg 
     intro s0 e1 e2 e3 e4
     have hp0 : 0 < s0.pending := by omega
     cases htm : s0.timer with
-    | none => rw [handleInput_none htm]; simp [fire, hp0, e3, e4]
+    | none => rw [handleInput_none htm]; simp [fire_def, hp0, e3, e4]
     | some d0 =>
       have hc : capReached cfg s0 = true := (capReached_iff cfg s0).2 ⟨m, hcap, by omega⟩
-      rw [handleInput_cap htm hc]; simp [fire, hp0, e3, e4]
+      rw [handleInput_cap htm hc]; simp [fire_def, hp0, e3, e4]
   rcases running_cases hrun with hl | hl
   · refine ⟨[.top, .deliver], handleInput cfg { s with loop := .sel }, ?_, ?_, ?_⟩
     · intro l hl'; simp at hl'; rcases hl' with rfl | rfl <;> rfl
@@ -220,9 +220,9 @@ theorem deadline_bound_aux {cfg : Config} {s s' : State} (hopen : s.timer.isSome
     generalize hb : backoffVals cfg s.cur s.factor = b
     refine ⟨handleTimer cfg { s with tokens := s.tokens - 1, loop := .sel, cur := b.1, factor := b.2.1, ovf := s.ovf || b.2.2, timer := some (s.now + b.1), armedAt := s.now, wk := s.wk + 1, now := s.now + b.1 }, ?_, ?_, ?_, ?_⟩
     · simp [exec, step]
-    · simp [handleTimer, fire, hp]
-    · simp [handleTimer]
-    · simp [handleTimer]
+    · simp [handleTimer_def, fire_def, hp]
+    · simp [handleTimer_def]
+    · simp [handleTimer_def]
   · cases hst
 
 theorem late_token_aux {cfg : Config} {s s' : State} (htm : s.timer = none) (hp : s.pending = 0)
@@ -234,14 +234,14 @@ theorem late_token_aux {cfg : Config} {s s' : State} (htm : s.timer = none) (hp 
   split at hst
   · cases hst
     rw [handleInput_none htm]
-    have hf : fire { s with tokens := s.tokens - 1, loop := Loop.top, timer := some (s.now + cfg.initial), armedAt := s.now, wk := 0 } = { s with tokens := s.tokens - 1, loop := Loop.top, timer := some (s.now + cfg.initial), armedAt := s.now, wk := 0 } := by
-      simp [fire, hp]
+    have hf : fire cfg { s with tokens := s.tokens - 1, loop := Loop.top, timer := some (s.now + cfg.initial), armedAt := s.now, wk := 0 } = { s with tokens := s.tokens - 1, loop := Loop.top, timer := some (s.now + cfg.initial), armedAt := s.now, wk := 0 } := by
+      simp [fire_def, hp]
     rw [hf]
     refine ⟨by simp, by simp, by simpa using hp, ?_⟩
     refine ⟨handleTimer cfg { s with tokens := s.tokens - 1, loop := .sel, timer := some (s.now + cfg.initial), armedAt := s.now, wk := 0, now := s.now + cfg.initial }, ?_, ?_, ?_⟩
     · simp [exec, step]
-    · simp [handleTimer, fire, hp]
-    · simp [handleTimer]
+    · simp [handleTimer_def, fire_def, hp]
+    · simp [handleTimer_def]
   · cases hst
 
 /-! ### arithmetic range -/
@@ -255,9 +255,9 @@ theorem range_reach {cfg : Config} (hv : cfg.valid) (hn : NoOvf cfg) :
   intro s h
   induction h with
   | init =>
-    refine ⟨rfl, by simp [init], ?_, hv.2.1, ⟨0, rfl⟩⟩
+    refine ⟨rfl, by simp [init_def], ?_, hv.2.1, ⟨0, rfl⟩⟩
     have := hn.2
-    simp [init]; omega
+    simp [init_def]; omega
   | @step s s' l hr hst ih =>
     obtain ⟨ho, hf, hp, hc, hk⟩ := ih
     have hw := winv_reach hv s hr
@@ -297,7 +297,7 @@ theorem range_reach {cfg : Config} (hv : cfg.valid) (hn : NoOvf cfg) :
       split at hst
       · split at hst
         · cases hst
-          refine ⟨by simp [handleTimer], by simpa [handleTimer] using hone, ?_, ⟨0, by simp [handleTimer]⟩⟩
+          refine ⟨by simp [handleTimer_def], by simpa [handleTimer_def] using hone, ?_, ⟨0, by simp [handleTimer_def]⟩⟩
           simpa using hc'
         · cases hst
       · cases hst
